@@ -109,6 +109,17 @@ def _param_leaves(t: Term, fi: FuncInfo) -> set[str]:
     return {x[1] for x in leaves(t, ("param",)) if x[1] in fi.param_names}
 
 
+def _plain_loc(l: Term) -> bool:
+    """A location written with parameters, attributes and parent / relative steps only (comparable with an expected one)."""
+    if l[0] in ("PARENT", "ABS", "NOSUF"):
+        return _plain_loc(l[1])
+    if l[0] == "REL":
+        return _plain_loc(l[1]) and _plain_loc(l[2])
+    if l[0] == "attr":
+        return _plain_loc(l[1])
+    return l[0] in ("param", "const")
+
+
 def _strip_abs_deep(l: Term) -> Term:
     """Location without abspath / resolve steps (a module's __file__ is an absolute path already)."""
     if l[0] == "ABS":
@@ -171,9 +182,15 @@ def rule_r1(repo: Repo, res: Result) -> None:
                     want = ("PARENT", ("attr", ("param", src), "__file__"))
                     got = _strip_abs_deep(loc(a)) if a is not None else None
                     ok = got == want
+                    if not ok and got is not None and not _plain_loc(got):
+                        res.undecide("C04.R1", f"{tag}::{pname} <- dirname({src}.__file__){suffix}", f"cannot read `{show(a, 120)}` as a directory", where(call.fi, call.node))
+                        continue
                     res.add("C04.R1", f"{tag}::{pname} <- dirname({src}.__file__){suffix}", ok, f"{pname} = directory of {src}" if ok else f"`{pname}` receives `{show_loc(got) if got is not None else 'nothing'}` instead of the directory of {src}.__file__", where(call.fi, call.node), kind="flow")
                 else:
                     ok = a == ("param", pname) and pname in gm.param_names
+                    if not ok and a is not None and a[0] not in ("param", "const", "attr", "tuple"):
+                        res.undecide("C04.R1", f"{tag}::{pname} forwarded{suffix}", f"cannot tell whether `{show(a, 120)}` is the option `{pname}` unchanged", where(call.fi, call.node))
+                        continue
                     same_default = pname not in gm.param_names or _default(gm, pname) == _default(ge, pname)
                     if a is None and pname in gm.param_names and _default(ge, pname) is not None:
                         detail = f"`{pname}` of the module-object entry point is not forwarded: the path entry point always uses its default"
@@ -348,6 +365,8 @@ def rule_r3(repo: Repo, res: Result) -> None:
             res.undecide("C04.R3", key + " [name relative to the source root]", f"cannot see how the registered name `{show(el, 120)}` is computed from the path relative to the source root", wh)
             continue
         rel = rels.pop()
+        from_walk = rel[1] == strip_abs(rel[1])
+        res.add("C04.R3", key + " [name of the visited path]", from_walk, "the name is computed from the path as it was found by the walk" if from_walk else f"the module name is computed from the resolved path `{show_loc(rel[1])}` instead of the path found by the walk: a symlinked file is registered under its target's name and a relative root_path makes relative_to fail", wh, kind="flow")
         init = repo.lookup_method(info.parse.cls, "__init__") if info.parse.cls else None
         root_param = f"{info.parse.cls.name}.{init.param_names[2]}" if init is not None and len(init.param_names) > 2 else None
         base_loc = rel[2]
@@ -428,6 +447,24 @@ def _len_offset(t: Term, s: Term):
         base, lo, hi = _slice_of(t[2][0])
         if base == s:
             return _slice_len(lo, hi)
+        parts = seq(s)
+        if len(parts) == 2 and parts[0] == ("many", base) and parts[1][0] == "one":
+            # s = p + [x]: len(p) == len(s) - 1
+            c = _slice_len(lo, hi)
+            return None if c is None else c - 1
+    return None
+
+
+def _rebase(pos, s: Term):
+    """The position expressed over the sequence `s` when it is written over the prefix p of s = p + [x] (element j of p is
+    element j of s; p has one element less)."""
+    if pos is None:
+        return None
+    if pos[0] == s:
+        return pos
+    parts = seq(s)
+    if len(parts) == 2 and parts[0] == ("many", pos[0]) and parts[1][0] == "one":
+        return (s, pos[1], pos[2], pos[3] - 1)
     return None
 
 
@@ -771,6 +808,8 @@ def rule_r4(repo: Repo, res: Result) -> None:
     unreadable: list = []
     for e, a, b, inh in edge_events:
         pa, pb = _sym_pos(names, a), _sym_pos(names, b)
+        if pa is not None and pb is not None and pa[0] != pb[0]:
+            pa = _rebase(pa, pb[0])  # `for i, parent in enumerate(parents): ... chain[i + 1]` with chain = parents + [module]
         if pa is None or pb is None or pa[0] != pb[0]:
             continue
         if {s_[0] for s_ in names.sources(pa[0])} != {"SCANNED"}:
